@@ -322,9 +322,10 @@ def assert_repo_imports():
     import cirq_aqt
     import cirq_pasqal
 
+    root = os.path.abspath(os.environ.get("VERIF_REPO", "/repo")).rstrip("/") + "/"
     for m in (cirq, cirq_google, cirq_ionq, cirq_aqt, cirq_pasqal):
-        if not os.path.abspath(m.__file__).startswith("/repo/"):
-            raise HarnessError(f"{m.__name__} imported from {m.__file__}, not from /repo")
+        if not os.path.abspath(m.__file__).startswith(root):
+            raise HarnessError(f"{m.__name__} imported from {m.__file__}, not from {root}")
 
 
 def seed_from_env() -> int:
